@@ -15,6 +15,7 @@ import (
 	"github.com/oasisprotocol/oasis-core/go/common/crypto/hash"
 	"github.com/oasisprotocol/oasis-core/go/common/keyformat"
 	"github.com/oasisprotocol/oasis-core/go/common/logging"
+	"github.com/oasisprotocol/oasis-core/go/common/verifhook"
 	"github.com/oasisprotocol/oasis-core/go/storage/mkvs/db/api"
 	"github.com/oasisprotocol/oasis-core/go/storage/mkvs/node"
 	"github.com/oasisprotocol/oasis-core/go/storage/mkvs/writelog"
@@ -270,6 +271,7 @@ func (d *badgerNodeDB) cleanMultipartLocked(removeNodes bool) error {
 	if err := batch.Flush(); err != nil {
 		return err
 	}
+	verifhook.At("badger.cleanMultipart.afterBatchFlush")
 
 	metaTx := d.db.NewTransactionAt(tsMetadata, true)
 	defer metaTx.Discard()
@@ -279,6 +281,7 @@ func (d *badgerNodeDB) cleanMultipartLocked(removeNodes bool) error {
 	if err := metaTx.CommitAt(tsMetadata, nil); err != nil {
 		return err
 	}
+	verifhook.At("badger.cleanMultipart.afterMetaCommit")
 
 	d.multipartVersion = multipartVersionNone
 	return nil
@@ -706,6 +709,7 @@ func (d *badgerNodeDB) Finalize(roots []node.Root) error { // nolint: gocyclo
 	if err := versionBatch.Flush(); err != nil {
 		return err
 	}
+	verifhook.At("badger.Finalize.afterBatchFlush")
 
 	// Save roots metadata if changed.
 	if rootsChanged {
@@ -722,6 +726,7 @@ func (d *badgerNodeDB) Finalize(roots []node.Root) error { // nolint: gocyclo
 	if err := tx.CommitAt(tsMetadata, nil); err != nil {
 		return fmt.Errorf("mkvs/badger: failed to commit metadata: %w", err)
 	}
+	verifhook.At("badger.Finalize.afterMetaCommit")
 
 	// Clean multipart metadata if there is any.
 	if d.multipartVersion != multipartVersionNone {
@@ -834,6 +839,7 @@ func (d *badgerNodeDB) Prune(version uint64) error {
 	if err := batch.Flush(); err != nil {
 		return fmt.Errorf("mkvs/badger: failed to flush batch: %w", err)
 	}
+	verifhook.At("badger.Prune.afterBatchFlush")
 
 	// Update metadata.
 	if err := d.meta.setEarliestVersion(tx, version+1); err != nil {
@@ -842,6 +848,7 @@ func (d *badgerNodeDB) Prune(version uint64) error {
 	if err := tx.CommitAt(tsMetadata, nil); err != nil {
 		return fmt.Errorf("mkvs/badger: failed to commit: %w", err)
 	}
+	verifhook.At("badger.Prune.afterMetaCommit")
 
 	// Discard everything invalidated at or below given version.
 	d.db.SetDiscardTs(versionToTs(version + 1))
@@ -874,6 +881,7 @@ func (d *badgerNodeDB) StartMultipartInsert(version uint64) error {
 	if err := tx.CommitAt(tsMetadata, nil); err != nil {
 		return err
 	}
+	verifhook.At("badger.StartMultipart.afterMetaCommit")
 
 	d.multipartVersion = version
 
@@ -1117,20 +1125,24 @@ func (ba *badgerBatch) Commit(root node.Root) error {
 		}
 	}
 
+	verifhook.At("badger.Commit.beforeFlush")
 	// Flush node updates.
 	if ba.multipartNodes != nil {
 		if err = ba.multipartNodes.Flush(); err != nil {
 			return fmt.Errorf("mkvs/badger: failed to flush node log batch: %w", err)
 		}
+		verifhook.At("badger.Commit.afterNodeLogFlush")
 	}
 	if err = ba.bat.Flush(); err != nil {
 		return fmt.Errorf("mkvs/badger: failed to flush batch: %w", err)
 	}
+	verifhook.At("badger.Commit.afterBatchFlush")
 
 	// Commit root metadata updates. This is done last, so in case we fail, we can still retry.
 	if err = tx.CommitAt(tsMetadata, nil); err != nil {
 		return err
 	}
+	verifhook.At("badger.Commit.afterMetaCommit")
 
 	ba.writeLog = nil
 	ba.annotations = nil
